@@ -6,6 +6,12 @@ import os
 HERE = os.path.dirname(os.path.dirname(os.path.abspath(__file__)))
 
 CHECKS = {
+    "C10": dict(
+        technique="runtime monitoring: exhaustive execution of the real inserter/adder/get-or-add/change-to/remove methods over schema-derived sibling contexts; libxml2 validation of a structure-only copy of the shipped XSDs as the postcondition oracle",
+        text="All 196 registered tags x their schema types x the 328 child declarations recovered from the real classes at run time; ~3e4 sibling contexts (single other child both orders, all later, all earlier, all permitted per choice alternative, every ordering of two kinds in repeatable mixed content; all pairs in thorough), each self-checked, ~1e5 method executions validated. Exhaustive over the declared context families, not over all sibling multisets.",
+        note="Trusted: libxml2 + shipped ISO 29500-4 schemas (structure-only transformation in vlib/xsdkit.py), vlib/ctxgen.py only proposes contexts (each validated before use). Public add_x methods with required arguments and children admitted only through xsd:any are not driven (counted in evidence).",
+        design="§3 C10",
+    ),
     "C19": dict(
         technique="runtime monitoring: bounded-exhaustive differential oracle (OPC/RFC 3986 reference model + urljoin) over PackURI executions",
         text="Every part name over a 6x7 segment alphabet to directory depth 2 (quick) / 3 (thorough) and all ordered pairs (9e4 / 3.4e6 executions of the real relative_ref/from_rel_ref), every accessor, dotted and root-absolute references, compared with an independent reference model and urljoin. Exhaustive within the stated alphabet; says nothing about names outside it.",
